@@ -76,7 +76,9 @@ Record request := {
   body_fails : bool;              (* the body reader returns an error before EOF *)
   pf : pf_form;
   stamp : N;                      (* modification time the OS gives to files written now *)
-  dir_tag : string                (* entity tag fs.Stat computes for a collection (OS metadata) *)
+  dir_tag : string;               (* entity tag fs.Stat computes for a collection (OS metadata) *)
+  mime_tab : list (string * string); (* mime.TypeByExtension on the extensions in play: (extension, type) *)
+  sniffed : string                (* http.DetectContentType of the addressed file's first 512 bytes *)
 }.
 
 (** * Responses (the projected observables) *)
@@ -86,7 +88,8 @@ Record ms_entry := {
   me_clen : string;               (* getcontentlength text, "" if absent *)
   me_etag : string;               (* getetag, unquoted, "" if absent *)
   me_lastmod : bool;              (* getlastmodified present *)
-  me_values : bool                (* false for propname answers *)
+  me_values : bool;               (* false for propname answers *)
+  me_ctype : string               (* getcontenttype, "" if absent *)
 }.
 
 Record response := {
@@ -98,16 +101,35 @@ Record response := {
   r_etag : string;                (* ETag header, as sent (quoted) *)
   r_lastmod : bool;
   r_ms : list ms_entry;
-  r_leak : bool                   (* some header or the body contains a host path *)
+  r_leak : bool;                  (* some header or the body contains a host path *)
+  r_ctype : string                (* Content-Type of GET/HEAD *)
 }.
 
 Definition resp0 (st : N) : response :=
   {| status := st; r_allow := ""; r_dav := ""; r_body := None; r_clen := ""; r_etag := "";
-     r_lastmod := false; r_ms := []; r_leak := false |}.
+     r_lastmod := false; r_ms := []; r_leak := false; r_ctype := "" |}.
 
 Definition err_resp (e : gerr) : response :=
   {| status := ecode e; r_allow := ""; r_dav := ""; r_body := None; r_clen := ""; r_etag := "";
-     r_lastmod := false; r_ms := []; r_leak := eleak e |}.
+     r_lastmod := false; r_ms := []; r_leak := eleak e; r_ctype := "" |}.
+
+(** path.Ext / filepath.Ext: the suffix of the last element from its last dot on *)
+Fixpoint ext_scan (s cur : string) : string :=
+  match s with
+  | EmptyString => cur
+  | String c r =>
+    if Ascii.eqb c "/" then ext_scan r EmptyString
+    else if Ascii.eqb c "." then ext_scan r (String c r)
+    else ext_scan r cur
+  end.
+Definition ext_of (s : string) : string := ext_scan s EmptyString.
+
+(** mime.TypeByExtension, as the table of the extensions in play ("" = not registered) *)
+Fixpoint mime_of (tab : list (string * string)) (ext : string) : string :=
+  match tab with
+  | [] => ""%string
+  | (e, t) :: r => if String.eqb e ext then t else mime_of r ext
+  end.
 
 (** * fs_local.go *)
 Record finfo := { fi_dir : bool; fi_size : N; fi_mtime : N; fi_etag : string }.
@@ -198,7 +220,7 @@ Section Served.
              {| status := if exists_ cur then 204 else 201;
                 r_allow := ""; r_dav := ""; r_body := None; r_clen := "";
                 r_etag := quote_tag (etag_of (stamp r) (strlen (body r)));
-                r_lastmod := true; r_ms := []; r_leak := false |})
+                r_lastmod := true; r_ms := []; r_leak := false; r_ctype := "" |})
           end
       end
     end.
@@ -323,31 +345,41 @@ Section Served.
         | Some (File _ _) => "OPTIONS, DELETE, PROPFIND, COPY, MOVE, HEAD, GET, PUT"
         end%string in
       (sb, {| status := 204; r_allow := allow; r_dav := "1, 3"; r_body := None; r_clen := "";
-              r_etag := ""; r_lastmod := false; r_ms := []; r_leak := false |})
+              r_etag := ""; r_lastmod := false; r_ms := []; r_leak := false; r_ctype := "" |})
     end.
+
+  Definition content_type (r : request) (segs : path) : string :=
+    let m := mime_of (mime_tab r) (ext_of (external_path segs)) in
+    if negb (String.eqb m "") then m
+    else let m2 := mime_of (mime_tab r) (ext_of (rpath r)) in
+         if negb (String.eqb m2 "") then m2 else sniffed r.
 
   (** backend.HeadGet *)
   Definition do_get (sb : option node) (r : request) (head : bool) : option node * response :=
     match stat sb (dir_tag r) (rpath r) with
     | GErr e => (sb, err_resp e)
     | GOk (_, Dir _) => (sb, err_resp {| ecode := 405; eleak := false |})
-    | GOk (_, File c m) =>
+    | GOk (segs, File c m) =>
       (sb, {| status := 200; r_allow := ""; r_dav := "";
               r_body := if head then None else Some c;
               r_clen := dec (strlen c);
               r_etag := quote_tag (etag_of m (strlen c));
-              r_lastmod := true; r_ms := []; r_leak := false |})
+              r_lastmod := true; r_ms := []; r_leak := false;
+              (* fileInfoFromOS: the type registered for the extension of the clean path; else
+                 http.ServeContent: the type of the extension of the raw request path, else sniffed *)
+              r_ctype := content_type r segs |})
     end.
 
   (** backend.propFindFile reduced to the observed properties *)
-  Definition entry_of (values : bool) (href : string) (n : node) : ms_entry :=
+  Definition entry_of (tab : list (string * string)) (values : bool) (href : string) (n : node) : ms_entry :=
     match n with
-    | Dir _ => {| me_href := href; me_dir := values; me_clen := ""; me_etag := ""; me_lastmod := true; me_values := values |}
+    | Dir _ => {| me_href := href; me_dir := values; me_clen := ""; me_etag := ""; me_lastmod := true; me_values := values; me_ctype := "" |}
     | File c m =>
       {| me_href := href; me_dir := false;
          me_clen := if values then dec (strlen c) else "";
          me_etag := if values then etag_of m (strlen c) else "";
-         me_lastmod := true; me_values := values |}
+         me_lastmod := true; me_values := values;
+         me_ctype := if values then mime_of tab (ext_of href) else "" |}
     end.
 
   (** handlePropfind + backend.PropFind + LocalFileSystem.ReadDir *)
@@ -370,11 +402,11 @@ Section Served.
           let values := match form with PfPropName => false | _ => true end in
           let entries :=
             if negb (N.eqb d 0) && is_dir (Some n) then
-              map (fun pn => entry_of values (external_path (segs ++ fst pn)) (snd pn))
+              map (fun pn => entry_of (mime_tab r) values (external_path (segs ++ fst pn)) (snd pn))
                   (if N.eqb d 2 then walk n [] else walk1 n [])
-            else [entry_of values (external_path segs) n] in
+            else [entry_of (mime_tab r) values (external_path segs) n] in
           (sb, {| status := 207; r_allow := ""; r_dav := ""; r_body := None; r_clen := "";
-                  r_etag := ""; r_lastmod := false; r_ms := entries; r_leak := false |})
+                  r_etag := ""; r_lastmod := false; r_ms := entries; r_leak := false; r_ctype := "" |})
         end
       end
     end.
